@@ -2,6 +2,7 @@
 //! NOTE regarding real-time-ishness: in all practical cases, real-time is granted, but there is a compare-exchange loop
 //!                                   that gets exercised in case of a -- nearly impossible in real workloads -- update collision.
 
+#[cfg(not(feature = "verif"))]
 use std::{
     sync::atomic::{
             AtomicU64,
@@ -10,6 +11,8 @@ use std::{
     mem::ManuallyDrop,
     fmt::{Debug, Formatter},
 };
+#[cfg(feature = "verif")]
+use {crate::verif::atomic::AtomicU64, std::{sync::atomic::Ordering::{self,Relaxed}, mem::ManuallyDrop, fmt::{Debug, Formatter}}};
 
 
 /// Although not exposed, this struct defines the fields and types we compute.\
